@@ -677,7 +677,17 @@ class APTMirror:
                 tasks.append(asyncio.create_task(mirror.mirror()))
                 mirrors.append(mirror)
 
-            self._error = not all(await asyncio.gather(*tasks))
+            # An exception escaping from one repository (e.g. a broken index
+            # file) must not abort the mirroring of the others
+            results = await asyncio.gather(*tasks, return_exceptions=True)
+            for mirror, result in zip(mirrors, results):
+                if isinstance(result, BaseException):
+                    self._log.error(
+                        f"Repository {mirror.get_repository()} mirroring failed: "
+                        f"{result.__class__.__qualname__}: {result}"
+                    )
+
+            self._error = not all(result is True for result in results)
 
             if not self._config.autoclean and any(
                 r.clean for r in self._config.repositories.values()
